@@ -124,7 +124,7 @@ def emit_tokens(label, pattern: str) -> list:
     """Tokens a task with this emit pattern makes visible (one per log/print/err step)."""
     out = []
     for i, step in enumerate(pattern.split('+')):
-        if step in ('log', 'warn', 'print', 'err', 'iprint', 'nprint'):
+        if step in ('log', 'warn', 'print', 'err', 'iprint', 'nprint', 'exc', 'wprint', 'eprint'):
             out.append(f'<{label}.{i}>')
         elif step.startswith('burst'):
             out.extend(f'<{label}.{i}.{j}>' for j in range(int(step[5:])))
@@ -145,6 +145,15 @@ def _emit(task):
             logger.warning(f'warn{tok}')
         elif step == 'print':
             print(f'out{tok}')
+        elif step == 'exc':                         # a record carrying a traceback
+            try:
+                raise ValueError('inner problem')
+            except ValueError:
+                logger.exception(f'exc{tok}')
+        elif step == 'wprint':                      # an unterminated write
+            sys.stdout.write(f'out{tok}')
+        elif step == 'eprint':                      # print without the trailing newline
+            print(f'out{tok}', end='')
         elif step == 'iprint':                      # an indented line
             print(f'    out{tok}')
         elif step == 'nprint':                      # text starting with a blank line
